@@ -7,6 +7,7 @@ CONSTANTS
  Scripts <- MCScripts
 INVARIANT SafeIsRecoverable
 INVARIANT SafeIsOldOrNew
+INVARIANT SafeRecoveryIsClean
 INVARIANT AtomicCoreNeverTorn
 INVARIANT AtomicNinjaNeverTorn
 INVARIANT SyncedCoreDurable
